@@ -533,7 +533,7 @@ func (e Engine) Run(t *simrt.Tape, c simrt.Case, x *simrt.Ctx) *simrt.Result {
 			panic(err)
 		}
 		for _, p := range []string{`[a-z]+`, `[\x0100-\x2000]`, `[a-\x0010FFFF]*`, `[\x00010000-\x0010FFFF]`} {
-			cmd := exec.Command("sh", "-c", "ulimit -v 1000000; exec \"$0\" -pattern-probe \"$1\"", exe, p)
+			cmd := exec.Command("sh", "-c", "ulimit -v 1000000; exec timeout -s KILL 45 \"$0\" -pattern-probe \"$1\"", exe, p)
 			var out bytes.Buffer
 			cmd.Stdout, cmd.Stderr = &out, &out
 			done := make(chan error, 1)
@@ -555,7 +555,8 @@ func (e Engine) Run(t *simrt.Tape, c simrt.Case, x *simrt.Ctx) *simrt.Result {
 				outcome = "timeout"
 			}
 			res.Evals++
-			res.Key("resource_probe", p, outcome)
+			res.Key("resource_probe", p)
+			res.Volatile["resource_probe:"+outcome]++ // out_of_memory or timeout, whichever comes first on this machine
 			if outcome != "ok" {
 				cls := "resource_exhaustion:" + outcome + "[wide_range]"
 				if id := knownFinding(x, cls); id != "" {
